@@ -255,7 +255,8 @@ def check_order(ctx: Context, rep, rule: str) -> None:
     for bo in ("=", "<", ">", "|"):
         for sysbo in ("little", "big"):
             env = {"value_np.dtype.byteorder": bo, "sys.byteorder": sysbo}
-            cfg = CFG(fn, env=env)
+            from sa import pathval
+            cfg = CFG(fn, env=env, oracle=pathval.call_oracle(ctx, fn, env))
             live = cfg.reachable([cfg.entry],
                                  follow=lambda a, b, lab: lab != "exc")
             tb = [n for n in live if n.kind == "call" and isinstance(
@@ -282,21 +283,28 @@ def check_order(ctx: Context, rep, rule: str) -> None:
                    message="data must be little endian when dumped "
                    f"(big endian input: {big})", sample=False)
     # the match subject is the converted array's byte order
-    from sa.dispatch import literal_dispatches
-    subj = literal_dispatches(fn.body_nodes())
-    rep.ob(rule, any(norm.canon(fn, m.subject).endswith("dtype.byteorder")
-                     for m in subj) and any(
-                         norm.canon(fn, m.subject) == "sys.byteorder"
-                         for m in subj),
+    dumped = {dotted(n.func.value) for n in fn.calls() if isinstance(
+        n.func, ast.Attribute) and n.func.attr in ("tobytes", "tostring")}
+    tested = {norm.canon(fn, x)[:-len(".dtype.byteorder")]
+              for x in fn.body_nodes() if isinstance(x, ast.Attribute) and
+              x.attr == "byteorder" and norm.canon(fn, x).endswith(
+                  ".dtype.byteorder")}
+    rep.ob(rule, bool(dumped) and dumped <= tested,
            loc=fn.loc(), where=fn.qualname,
-           construct="match value_np.dtype.byteorder / sys.byteorder",
-           message="normalisation dispatches on the array's and the "
-           "platform's byte order")
+           construct=f"byte order tested of {sorted(tested)}, dumped "
+           f"{sorted(x or '?' for x in dumped)}",
+           message="the byte order that decides about the swap is that of "
+           "the array that is dumped")
     # the byte order that is tested is the byte order of the array that is
     # dumped: no dtype conversion between the test and tobytes
     wcfg = ctx.cfg(fn)
+    def mentions_byteorder(e: ast.AST) -> bool:
+        return any(isinstance(x, ast.Attribute) and x.attr == "byteorder" and
+                   norm.canon(fn, x).endswith("dtype.byteorder")
+                   for x in ast.walk(e))
+
     tests = [n for n in wcfg.nodes if n.kind == "test" and n.ast is not None
-             and norm.canon(fn, n.ast).endswith("dtype.byteorder")]
+             and mentions_byteorder(n.ast)]
     after = wcfg.reachable(tests, follow=lambda a, b, lab: lab != "exc",
                            strict=True) if tests else set()
 
